@@ -576,6 +576,8 @@ class ConfigParser(object):
     species_a, species_b = tokens
     species_a = species_a.strip()
     species_b = species_b.strip()
+    if not species_a or not species_b:
+      raise ConfigParserException("Species pair should be of the form 'SPECIES_A-SPECIES_B'. Invalid key found: '{}'".format(k))
     return  SpeciesTuple(species_a, species_b)
 
 
